@@ -118,6 +118,36 @@ def run(res, args):
                                'explain': 'the conversion exhausted an 8 MiB stack instead of converting or refusing the document'}, f'stack-{depth}')
     res.coverage['stack_ladder_8MiB'] = stack_results
 
+    # ---- heap: size ladder on the plain build; peak resident set against the documented bound
+    # (linear in the size of the decoded document; the harness itself holds the hex request and response,
+    # which are linear in the same quantities)
+    big = 200000 if quick else 2000000
+    sl, sm = (2000, 2000) if quick else (6000, 6000)
+    from wbgen import mb as _mb
+    shapes = {
+        'long-inline-string': bytes([3, 5, 0x6a, 0, 0x45, 3]) + b'a' * big + bytes([0, 1]),
+        'long-opaque': bytes([3, 5, 0x6a, 0, 0x45, 0xC3]) + _mb(big) + b'\x7f' * big + bytes([1]),
+        'string-table-references (quadratic decode)': bytes([3, 5, 0x6a]) + _mb(sl + 1) + b'q' * sl + b'\x00' + bytes([0x45]) + bytes([0x83, 0]) * sm + bytes([1]),
+        'markup-characters (escaping)': bytes([3, 5, 0x6a, 0, 0x45, 3]) + b'<&">' * (big // 4) + bytes([0, 1]),
+        'wide': bytes([3, 5, 0x6a, 0, 0x45]) + bytes([0x06]) * (20000 if quick else 60000) + bytes([1]),
+        'entities': bytes([3, 5, 0x6a, 0, 0x45]) + (b'\x02' + _mb(0x20AC)) * (big // 8) + bytes([1]),
+    }
+    heap = {}
+    for name, doc in shapes.items():
+        for gen, ind in ((0, 0), (1, 4)):
+            rc, out, rss = common.peak_rss(ph, f'W2X 0 0 {gen} {ind} 0 {doc.hex()}\n', timeout=1800)
+            outlen = (len(out.split()[3]) // 2) if out.startswith('R 0 ; ') and len(out.split()) > 3 else 0
+            bound = 8 * 2 ** 20 + 16 * (len(doc) + outlen)
+            heap[f'{name} gen={gen}'] = {'input_bytes': len(doc), 'output_bytes': outlen, 'peak_rss_bytes': rss, 'bound': bound, 'rc': rc}
+            if rc != 0 or not out.startswith('R '):
+                res.violation({'kind': 'crash-on-large-input', 'shape': name, 'input_bytes': len(doc), 'rc': rc,
+                               'request': f'W2X 0 0 {gen} {ind} 0 <{name}, {len(doc)} bytes>'}, f'heap-crash-{len(heap)}')
+            elif rss is not None and rss > bound:
+                res.violation({'kind': 'heap-bound', 'shape': name, 'input_bytes': len(doc), 'output_bytes': outlen, 'peak_rss_bytes': rss, 'bound_bytes': bound,
+                               'explain': 'peak memory is not linear in the size of the decoded document (bound: 8 MiB + 16 x (input + output); observed on the pinned tree: about 3.5 x)',
+                               'request_prefix': f'W2X 0 0 {gen} {ind} 0 {doc[:40].hex()}...'}, f'heap-{len(heap)}')
+    res.coverage['heap_ladder'] = heap
+
     if corr_diff and not res.violations:
         i = corr_diff[0]
         res.violation({'kind': 'correspondence', 'stream': 'W2X', 'request': all_lines[i], 'impl': (impl[i] or '')[:600], 'model': (model[i] or '')[:600], 'differences': len(corr_diff),
@@ -125,6 +155,6 @@ def run(res, args):
                       'w2x-correspondence', no_input=True)
     if failing and not res.violations:
         res.violation({'kind': 'proof', 'theorems': failing}, 'proof', no_input=True)
-    res.assumptions = ['heap bound and real stack frames are runtime facts observed under sanitizers / the 8 MiB ladder, not proved',
+    res.assumptions = ['heap bound and real stack frames are runtime facts observed (peak resident set on a size ladder against 8 MiB + 16 x (input + output); 8 MiB stack ladder), not proved',
                        'input length < 2^32 - 16; C locale']
     return res.finish('proof', checker_cmd='lake build Wbxml.Props.C01 && #audit Wbxml.Props.C01')
